@@ -40,18 +40,27 @@ structure HFlow where
   sSegs : Nat := 0
   cParsed : Bool := false
   sParsed : Bool := false
+  isn : Nat := 0          -- sequence number of the SYN that opened the flow
+  flip : Bool := false    -- the flow's client is the scenario's second endpoint
 
 /-- one HTTP step: returns (new flow option, work, reported code) -/
 def httpStep (okReq okResp : List Nat) (f : Option HFlow) (s : SegD) : Option HFlow × Nat × Nat :=
   let syn := s.flags / 2 % 2 == 1
+  let ack := s.flags / 16 % 2 == 1
   let finrst := s.flags % 2 == 1 || s.flags / 4 % 2 == 1
+  -- the SYN reset: a SYN without ACK that is not the retransmission of the stored flow's own SYN drops the flow
+  let f : Option HFlow := if syn && !ack then
+      match f with
+      | some fl => if (s.fromOpener != fl.flip) && fl.isn == s.seq then f else none
+      | none => none
+    else f
   match f with
-  | none => if syn && s.fromOpener then (some { cBytes := s.len, cSegs := 1 }, s.len, 0) else (none, 0, 0)
+  | none => if syn then (some { cBytes := s.len, cSegs := 1, isn := s.seq, flip := !s.fromOpener }, s.len, 0) else (none, 0, 0)
   | some f =>
     if s.len == 0 then (some f, 0, 0) else
     let fin (f : HFlow) (w rep : Nat) : Option HFlow × Nat × Nat :=
       if f.cParsed && f.sParsed then (none, w, rep) else if finrst then (none, w, rep) else (some f, w, rep)
-    if s.fromOpener then
+    if s.fromOpener != f.flip then
       if !f.cParsed then
         let c := f.cBytes + s.len
         if c > cap then fin { f with cBytes := 0, cSegs := 0, cParsed := true } (s.len + c) 0
@@ -78,6 +87,8 @@ structure TRd where
   head : List UInt8 := []
 
 def tlsStep (sigLens noneLens : List Nat) (r : Option TRd) (s : SegD) : Option TRd × Nat × Nat :=
+  -- the SYN reset: a SYN drops the reader of its 4-tuple
+  let r := if s.flags / 2 % 2 == 1 then none else r
   if s.len == 0 then (r, 0, 0) else
   if !(r.isSome || s.isTls) then (r, 0, 0) else
   let rd := r.getD {}
